@@ -23,10 +23,14 @@ NoObs == [m |-> Flat([ph |-> "QUALITY", r |-> 0, v |-> "ext", snd |-> "member", 
 TInit == l = 1 /\ obs = NoObs /\ bad = {}
 TNext == l <= Len(Table) /\ obs' = ObsOf(Table[l]) /\ l' = l + 1
 
-Clauses == {"C13_SameAcceptance", "C13_NoForeignChain", "C13_NoForeignJustification", "C13_RoundTrip",
+\* C05 on the partial entry point: the verdicts recorded for one point on a fresh participant and on long-lived participants
+\* (warm cache shared by both paths, several orders, with and without eviction) are all the same
+C05P_HistoryIndependent(o) == Cardinality(o.ts) <= 1 /\ Cardinality(o.os) <= 1
+Clauses == {"C13_SameAcceptance", "C13_NoForeignChain", "C13_NoForeignJustification", "C13_RoundTrip", "C05_HistoryIndependent",
             "Conf_Partial", "Conf_Full", "Conf_OneShot", "Conf_InSpace"}
 HoldsP(cl, o, p) == CASE cl = "C13_SameAcceptance" -> C13P_SameAcceptance(o, p) [] cl = "C13_NoForeignChain" -> C13P_NoForeignChain(o, p)
                       [] cl = "C13_NoForeignJustification" -> C13P_NoForeignJustification(o, p) [] cl = "C13_RoundTrip" -> C13P_RoundTrip(o, p)
+                      [] cl = "C05_HistoryIndependent" -> C05P_HistoryIndependent(o)
                       [] cl = "Conf_Partial" -> ConfP_Partial(o, p) [] cl = "Conf_Full" -> ConfP_Full(o, p)
                       [] cl = "Conf_OneShot" -> ConfP_OneShot(o, p) [] cl = "Conf_InSpace" -> ConfP_InSpace(o)
 Failing(o, p) == {cl \in Clauses : ~HoldsP(cl, o, p)}
